@@ -277,7 +277,7 @@ Proof.
   - destruct (negb (joined s)); [intros [= <- <-]; apply trans_quiet; auto; reflexivity|].
     destruct (amem req (invs s)) eqn:M; [intros [= <- <-]; apply trans_quiet; auto; reflexivity|].
     destruct (alookup reg (regs s)) as [d|]; [|intros [= <- <-]; apply trans_quiet; auto; reflexivity].
-    set (k := nextk s). set (clos := r_details d && rp). set (det := if r_details d then Some (caller, clos) else None).
+    set (k := nextk s). set (clos := r_details d && rp_on rp). set (det := if r_details d then Some (eff_details reg caller, clos) else None).
     set (acc := OAccepted k req reg args caller rp (r_details d)).
     assert (A1 : is_accepted req acc = true) by (cbn; apply N.eqb_refl).
     assert (A2 : forall r, is_terminal r acc = false) by reflexivity.
@@ -494,7 +494,7 @@ Proof.
   - destruct (negb (joined s)); [intros [= <- <-]; apply lebal_quiet; reflexivity|].
     destruct (amem req (invs s)) eqn:M; [intros [= <- <-]; apply lebal_quiet; reflexivity|].
     destruct (alookup reg (regs s)) as [d|]; [|intros [= <- <-]; apply lebal_quiet; reflexivity].
-    set (k := nextk s). set (clos := r_details d && rp). set (det := if r_details d then Some (caller, clos) else None).
+    set (k := nextk s). set (clos := r_details d && rp_on rp). set (det := if r_details d then Some (eff_details reg caller, clos) else None).
     set (acc := OAccepted k req reg args caller rp (r_details d)).
     assert (A1 : is_accepted req acc = true) by (cbn; apply N.eqb_refl).
     assert (A2 : forall r, is_terminal r acc = false) by reflexivity.
@@ -687,14 +687,14 @@ Lemma args_fidelity classify ecls fl s req reg args caller rp b d :
   exists s' rest,
     step classify ecls fl s (OInvocation req reg args caller rp b) =
       (s', OAccepted (nextk s) req reg args caller rp (r_details d)
-           :: OCalled (nextk s) req reg args (if r_details d then Some (caller, r_details d && rp) else None) :: rest)
+           :: OCalled (nextk s) req reg args (if r_details d then Some (eff_details reg caller, r_details d && rp_on rp) else None) :: rest)
     /\ nocalls rest.
 Proof.
   intros J M L F G. cbn [step]. rewrite J, M, L. cbn [negb].
   assert (E : forall (X Y : st * list out), (match fl, defers d with Aio, true => X | _, _ => Y end) = Y).
   { intros X Y. destruct F as [-> | ->]; [reflexivity|destruct fl; reflexivity]. }
   rewrite E. clear E. unfold run_body. cbn [c_req c_reg c_args c_det c_clos c_gate]. rewrite G.
-  destruct (run_pre classify s (nextk s) req (r_details d && rp) (b_pre b)) as [o1 ok] eqn:P.
+  destruct (run_pre classify s (nextk s) req (r_details d && rp_on rp) (b_pre b)) as [o1 ok] eqn:P.
   pose proof (run_pre_nocalls _ _ _ _ _ _ _ _ P) as N1.
   destruct (if ok then match b_fin b with FReturn r => Some (ROk r) | FRaise e => Some (RErr e) | FPending => None end
             else Some (RErr EInternal)) as [r|].
@@ -712,8 +712,8 @@ Lemma args_fidelity_aio_coro classify ecls s req reg args caller rp b d :
     /\ queue s' = queue s ++ [QStep (nextk s)]
     /\ alookup (nextk s) (calls s') =
          Some {| c_req := req; c_reg := reg; c_args := args;
-                 c_det := if r_details d then Some (caller, r_details d && rp) else None;
-                 c_clos := r_details d && rp; c_st := CFresh b false; c_gate := gate_of d |}.
+                 c_det := if r_details d then Some (eff_details reg caller, r_details d && rp_on rp) else None;
+                 c_clos := r_details d && rp_on rp; c_st := CFresh b false; c_gate := gate_of d |}.
 Proof.
   intros J M L C. cbn [step]. rewrite J, M, L, C. cbn [negb].
   eexists. split; [reflexivity|]. cbn. split; [reflexivity|]. now rewrite N.eqb_refl.
@@ -738,14 +738,14 @@ Qed.
 Fixpoint prog_ok (seen : list N) (l : list out) : bool :=
   match l with
   | [] => true
-  | OAccepted _ req _ _ _ rp wants :: r => prog_ok (if rp && wants then req :: seen else seen) r
+  | OAccepted _ req _ _ _ rp wants :: r => prog_ok (if rp_on rp && wants then req :: seen else seen) r
   | OSent (MYield req _ _ true) :: r => existsb (N.eqb req) seen && prog_ok seen r
   | _ :: r => prog_ok seen r
   end.
 Fixpoint seen_after (seen : list N) (l : list out) : list N :=
   match l with
   | [] => seen
-  | OAccepted _ req _ _ _ rp wants :: r => seen_after (if rp && wants then req :: seen else seen) r
+  | OAccepted _ req _ _ _ rp wants :: r => seen_after (if rp_on rp && wants then req :: seen else seen) r
   | _ :: r => seen_after seen r
   end.
 Lemma prog_ok_app seen a b : prog_ok seen (a ++ b) = prog_ok seen a && prog_ok (seen_after seen a) b.
@@ -763,7 +763,7 @@ Lemma seen_after_incl seen l r : In r seen -> In r (seen_after seen l).
 Proof.
   revert seen. induction l as [|x l IH]; intros seen H; [exact H|].
   destruct x as [k rq g ar c rp w| | | |]; cbn [seen_after]; try (apply IH; exact H).
-  apply IH. destruct (rp && w); [now right|exact H].
+  apply IH. destruct (rp_on rp && w); [now right|exact H].
 Qed.
 
 (* output of code that neither accepts an invocation nor needs anything from [seen] beyond what it has *)
@@ -930,12 +930,12 @@ Proof.
   - destruct (negb (joined s)); [intros [= <- <-]; apply Easy; [apply okout_raised|apply pres_refl]|].
     destruct (amem req (invs s)); [intros [= <- <-]; apply Easy; [apply okout_raised|apply pres_refl]|].
     destruct (alookup reg (regs s)) as [d|]; [|intros [= <- <-]; apply Easy; [apply okout_raised|apply pres_refl]].
-    set (k := nextk s). set (clos := r_details d && rp). set (det := if r_details d then Some (caller, clos) else None).
+    set (k := nextk s). set (clos := r_details d && rp_on rp). set (det := if r_details d then Some (eff_details reg caller, clos) else None).
     set (acc := OAccepted k req reg args caller rp (r_details d)).
-    set (seen1 := if rp && r_details d then req :: seen else seen).
+    set (seen1 := if rp_on rp && r_details d then req :: seen else seen).
     assert (Hs1 : clos = true -> In req seen1).
     { unfold clos, seen1. rewrite andb_comm. intros ->. now left. }
-    assert (Hm : forall r0, In r0 seen -> In r0 seen1) by (intros r0 H; unfold seen1; destruct (rp && r_details d); [now right|exact H]).
+    assert (Hm : forall r0, In r0 seen -> In r0 seen1) by (intros r0 H; unfold seen1; destruct (rp_on rp && r_details d); [now right|exact H]).
     assert (Ent : forall cs s1, s1 = {| regs := regs s; invs := aset req k (invs s);
                     calls := aset k {| c_req := req; c_reg := reg; c_args := args; c_det := det; c_clos := clos; c_st := cs; c_gate := gate_of d |} (calls s);
                     up := up s; joined := joined s; queue := queue s; nextk := k + 1 |} -> Inv s1 seen1).
@@ -1002,13 +1002,13 @@ End Prog.
 
 (* declarative reading of the monitor *)
 Lemma seen_after_origin l : forall seen r, In r (seen_after seen l) ->
-  In r seen \/ exists k g a c, In (OAccepted k r g a c true true) l.
+  In r seen \/ exists k g a c, In (OAccepted k r g a c (Some true) true) l.
 Proof.
   induction l as [|x l IH]; intros seen r H; [now left|].
   destruct x as [k rq g ar c rp w| | | |]; cbn [seen_after] in H;
     try (destruct (IH _ _ H) as [?|(k' & g' & a' & c' & Hin)]; [now left|right; exists k', g', a', c'; now right]).
   destruct (IH _ _ H) as [Hs|(k' & g' & a' & c' & Hin)].
-  - destruct rp, w; cbn in Hs; try (now left). destruct Hs as [<-|Hs]; [|now left].
+  - destruct rp as [[|]|], w; cbn in Hs; try (now left). destruct Hs as [<-|Hs]; [|now left].
     right. exists k, g, ar, c. now left.
   - right. exists k', g', a', c'. now right.
 Qed.
@@ -1022,7 +1022,7 @@ Qed.
 Theorem progress_only_if_requested : forall classify ecls fl ops s outs,
   run classify ecls fl init ops = (s, outs) ->
   forall pre req sg p post, outs = pre ++ OSent (MYield req sg p true) :: post ->
-  exists k reg args caller, In (OAccepted k req reg args caller true true) pre.
+  exists k reg args caller, In (OAccepted k req reg args caller (Some true) true) pre.
 Proof.
   intros classify ecls fl ops s outs R pre req sg p post E.
   assert (I0 : Inv init []) by (intros k c H; discriminate).
@@ -1079,14 +1079,14 @@ Lemma progress_sync_before_terminal classify ecls fl s req reg args caller rp b 
   exists s' body cb,
     step classify ecls fl s (OInvocation req reg args caller rp b) =
       (s', OAccepted (nextk s) req reg args caller rp (r_details d)
-           :: OCalled (nextk s) req reg args (if r_details d then Some (caller, r_details d && rp) else None) :: body ++ cb)
+           :: OCalled (nextk s) req reg args (if r_details d then Some (eff_details reg caller, r_details d && rp_on rp) else None) :: body ++ cb)
     /\ quiet body /\ noprogs cb.
 Proof.
   intros J M L F G. cbn [step]. rewrite J, M, L. cbn [negb].
   assert (E : forall (X Y : st * list out), (match fl, defers d with Aio, true => X | _, _ => Y end) = Y).
   { intros X Y. destruct F as [-> | ->]; [reflexivity|destruct fl; reflexivity]. }
   rewrite E. clear E. unfold run_body. cbn [c_req c_reg c_args c_det c_clos c_gate]. rewrite G.
-  destruct (run_pre classify s (nextk s) req (r_details d && rp) (b_pre b)) as [o1 ok] eqn:P.
+  destruct (run_pre classify s (nextk s) req (r_details d && rp_on rp) (b_pre b)) as [o1 ok] eqn:P.
   pose proof (run_pre_quiet _ _ _ _ _ _ _ _ P) as Q1.
   destruct (if ok then match b_fin b with FReturn r => Some (ROk r) | FRaise e => Some (RErr e) | FPending => None end
             else Some (RErr EInternal)) as [r|].
@@ -1108,6 +1108,9 @@ Lemma progress_needs_closure classify ecls fl s k c p :
 Proof. intros L C. cbn [step]. rewrite L, C. destruct (c_st c); destruct (c_gate c); reflexivity. Qed.
 
 (* ================= witnesses ================= *)
+(* INVOCATION details of the witnesses: caller 7 disclosed, nothing else; what CallDetails then shows for registration 100 *)
+Definition C7 : idet := (Some 7, None, None).
+Definition D7 : cdet := (Some 7, None, 100).
 Definition d_plain := {| r_details := true; r_coro := false; r_check := false; r_sig := SigOk |}.
 Definition d_coro := {| r_details := true; r_coro := true; r_check := false; r_sig := SigOk |}.
 Definition V (i : N) := PVal i false false.
@@ -1115,12 +1118,12 @@ Definition V (i : N) := PVal i false false.
 (* progress after the terminal reply: INTERRUPT answered with ERROR, then the endpoint reports progress *)
 Definition h_progress_after_terminal : list op :=
   [ORegister 100 d_plain;
-   OInvocation 1 100 (V 11) 7 true {| b_pre := []; b_fin := FPending |};
+   OInvocation 1 100 (V 11) C7 (Some true) {| b_pre := []; b_fin := FPending |};
    OInterrupt 1; OTurn; OProgress 0 (V 2)].
 Lemma progress_before_terminal_refuted : forall fl,
   stays_up h_progress_after_terminal /\
   snd (run ws_send [] fl init h_progress_after_terminal) =
-    [OAccepted 0 1 100 (V 11) 7 true true; OCalled 0 1 100 (V 11) (Some (7, true))]
+    [OAccepted 0 1 100 (V 11) C7 (Some true) true; OCalled 0 1 100 (V 11) (Some (D7, true))]
     ++ OSent (MError 1 URuntime PEmpty) :: [] ++ OSent (MYield 1 false (V 2) true) :: []
   /\ is_terminal 1 (OSent (MError 1 URuntime PEmpty)) = true
   /\ is_progressive 1 (OSent (MYield 1 false (V 2) true)) = true.
@@ -1129,48 +1132,48 @@ Proof. intros []; (split; [reflexivity|]); (split; [vm_compute; reflexivity|]); 
 (* the hypothesis classify_ok of one_terminal is needed: the two send() implementations as they were *)
 Definition h_unser_result : list op :=
   [ORegister 100 {| r_details := false; r_coro := false; r_check := false; r_sig := SigOk |};
-   OInvocation 1 100 (V 0) 7 false {| b_pre := []; b_fin := FReturn (RPlain (PVal 1 true false)) |}; OTurn].
+   OInvocation 1 100 (V 0) C7 (None) {| b_pre := []; b_fin := FReturn (RPlain (PVal 1 true false)) |}; OTurn].
 Lemma leaky_unser_loses_reply ser_exn ecls :
   stays_up h_unser_result /\
   exists s, run (leaky_unser_send ser_exn) ecls Tx init h_unser_result =
-              (s, [OAccepted 0 1 100 (V 0) 7 false false; OCalled 0 1 100 (V 0) None; ORaised InCallback ser_exn])
+              (s, [OAccepted 0 1 100 (V 0) C7 (None) false; OCalled 0 1 100 (V 0) None; ORaised InCallback ser_exn])
     /\ active 1 s = 0%nat.
 Proof. split; [reflexivity|]. eexists. split; reflexivity. Qed.
 Definition h_big_error : list op :=
   [ORegister 100 {| r_details := false; r_coro := false; r_check := false; r_sig := SigOk |};
-   OInvocation 1 100 (V 0) 7 false {| b_pre := []; b_fin := FRaise (EApp 3 (PVal 1 false true)) |}; OTurn].
+   OInvocation 1 100 (V 0) C7 (None) {| b_pre := []; b_fin := FRaise (EApp 3 (PVal 1 false true)) |}; OTurn].
 Lemma leaky_big_loses_reply ecls :
   stays_up h_big_error /\
   exists s, run leaky_big_send ecls Aio init h_big_error =
-              (s, [OAccepted 0 1 100 (V 0) 7 false false; OCalled 0 1 100 (V 0) None; ORaised InCallback XValueError])
+              (s, [OAccepted 0 1 100 (V 0) C7 (None) false; OCalled 0 1 100 (V 0) None; ORaised InCallback XValueError])
     /\ active 1 s = 0%nat.
 Proof. split; [reflexivity|]. eexists. split; reflexivity. Qed.
 
 (* two concurrent invocations finishing in reverse order *)
 Definition h_reverse : list op :=
   [ORegister 100 d_plain;
-   OInvocation 1 100 (V 11) 7 false {| b_pre := []; b_fin := FPending |};
-   OInvocation 2 100 (V 12) 7 false {| b_pre := []; b_fin := FPending |};
+   OInvocation 1 100 (V 11) C7 (None) {| b_pre := []; b_fin := FPending |};
+   OInvocation 2 100 (V 12) C7 (None) {| b_pre := []; b_fin := FPending |};
    OResolve 1 (ROk (RPlain (V 22))); OTurn;
    OResolve 0 (RErr (EApp 3 (V 21))); OTurn].
 (* progress, progress, INTERRUPT, late result *)
 Definition h_progress_interrupt : list op :=
   [ORegister 100 d_plain;
-   OInvocation 5 100 (V 11) 7 true {| b_pre := [V 1]; b_fin := FPending |};
+   OInvocation 5 100 (V 11) C7 (Some true) {| b_pre := [V 1]; b_fin := FPending |};
    OProgress 0 (V 2); OInterrupt 5; OTurn; OResolve 0 (ROk (RPlain (V 3))); OTurn].
 (* every payload class on both paths: the fallback ERRORs are what reaches the wire *)
 Definition h_fallbacks : list op :=
   [ORegister 100 d_plain;
-   OInvocation 1 100 (V 11) 7 false {| b_pre := []; b_fin := FReturn (RPlain (PVal 1 true false)) |};
-   OInvocation 2 100 (V 12) 7 false {| b_pre := []; b_fin := FReturn (RCallResult (PVal 2 false true)) |};
-   OInvocation 3 100 (V 13) 7 false {| b_pre := []; b_fin := FRaise (EApp 3 (PVal 3 false true)) |};
-   OInvocation 4 100 (V 14) 7 false {| b_pre := []; b_fin := FRaise (EOther 9 (PVal 4 true false)) |};
-   OInvocation 5 100 (V 15) 7 false {| b_pre := []; b_fin := FReturn (RPlain (PVal 5 true true)) |}; OTurn].
+   OInvocation 1 100 (V 11) C7 (None) {| b_pre := []; b_fin := FReturn (RPlain (PVal 1 true false)) |};
+   OInvocation 2 100 (V 12) C7 (None) {| b_pre := []; b_fin := FReturn (RCallResult (PVal 2 false true)) |};
+   OInvocation 3 100 (V 13) C7 (None) {| b_pre := []; b_fin := FRaise (EApp 3 (PVal 3 false true)) |};
+   OInvocation 4 100 (V 14) C7 (None) {| b_pre := []; b_fin := FRaise (EOther 9 (PVal 4 true false)) |};
+   OInvocation 5 100 (V 15) C7 (None) {| b_pre := []; b_fin := FReturn (RPlain (PVal 5 true true)) |}; OTurn].
 (* asyncio coroutine endpoint cancelled before its body ran / after its inner future was resolved *)
 Definition h_coro_cancel : list op :=
   [ORegister 100 d_coro;
-   OInvocation 1 100 (V 11) 7 true {| b_pre := [V 1]; b_fin := FPending |}; OInterrupt 1; OTurn; OProgress 0 (V 2);
-   OInvocation 2 100 (V 12) 7 false {| b_pre := []; b_fin := FPending |}; OTurn; OResolve 1 (ROk (RPlain (V 3))); OInterrupt 2; OTurn].
+   OInvocation 1 100 (V 11) C7 (Some true) {| b_pre := [V 1]; b_fin := FPending |}; OInterrupt 1; OTurn; OProgress 0 (V 2);
+   OInvocation 2 100 (V 12) C7 (None) {| b_pre := []; b_fin := FPending |}; OTurn; OResolve 1 (ROk (RPlain (V 3))); OInterrupt 2; OTurn].
 
 Lemma args_fidelity_aio_coroutine : forall classify ecls s req reg args caller rp b d,
   joined s = true -> amem req (invs s) = false -> alookup reg (regs s) = Some d -> defers d = true ->
@@ -1179,8 +1182,8 @@ Lemma args_fidelity_aio_coroutine : forall classify ecls s req reg args caller r
     /\ queue s' = queue s ++ [QStep (nextk s)]
     /\ alookup (nextk s) (calls s') =
          Some {| c_req := req; c_reg := reg; c_args := args;
-                 c_det := if r_details d then Some (caller, r_details d && rp) else None;
-                 c_clos := r_details d && rp; c_st := CFresh b false; c_gate := gate_of d |})
+                 c_det := if r_details d then Some (eff_details reg caller, r_details d && rp_on rp) else None;
+                 c_clos := r_details d && rp_on rp; c_st := CFresh b false; c_gate := gate_of d |})
   /\ (forall s1 k c b1, alookup k (calls s1) = Some c -> c_st c = CFresh b1 false -> c_gate c = None ->
       exists s2 rest, run_item classify ecls s1 (QStep k) = (s2, OCalled k (c_req c) (c_reg c) (c_args c) (c_det c) :: rest)
                       /\ nocalls rest).
@@ -1189,21 +1192,41 @@ Proof. intros. split; [now apply args_fidelity_aio_coro|intros; eapply coro_step
 Lemma classify_ok_needed_unserializable : forall ser_exn ecls,
   ~ classify_ok (leaky_unser_send ser_exn) /\ stays_up h_unser_result /\
   exists s, run (leaky_unser_send ser_exn) ecls Tx init h_unser_result =
-              (s, [OAccepted 0 1 100 (V 0) 7 false false; OCalled 0 1 100 (V 0) None; ORaised InCallback ser_exn])
+              (s, [OAccepted 0 1 100 (V 0) C7 (None) false; OCalled 0 1 100 (V 0) None; ORaised InCallback ser_exn])
     /\ active 1 s = 0%nat.
 Proof. intros x e. split; [apply leaky_unser_not_ok|apply leaky_unser_loses_reply]. Qed.
 Lemma classify_ok_needed_oversized : forall ecls,
   ~ classify_ok leaky_big_send /\ stays_up h_big_error /\
   exists s, run leaky_big_send ecls Aio init h_big_error =
-              (s, [OAccepted 0 1 100 (V 0) 7 false false; OCalled 0 1 100 (V 0) None; ORaised InCallback XValueError])
+              (s, [OAccepted 0 1 100 (V 0) C7 (None) false; OCalled 0 1 100 (V 0) None; ORaised InCallback XValueError])
     /\ active 1 s = 0%nat.
 Proof. intros e. split; [apply leaky_big_not_ok|apply leaky_big_loses_reply]. Qed.
 
 (* ================= argument fidelity, globally ================= *)
 (* monitor: what was accepted under call index k; every "endpoint entered" must repeat exactly that, with
    CallDetails (caller, progress callable iff receive_progress) iff the registration asked for details *)
-Definition acc_entry := (N * N * payload * option (N * bool))%type.
-Definition det_of (caller : N) (rp wants : bool) : option (N * bool) := if wants then Some (caller, wants && rp) else None.
+Definition acc_entry := (N * N * payload * option (cdet * bool))%type.
+Definition det_of (reg : N) (caller : idet) (rp : option bool) (wants : bool) : option (cdet * bool) :=
+  if wants then Some (eff_details reg caller, wants && rp_on rp) else None.
+Definition optN_eqb (a b : option N) : bool :=
+  match a, b with None, None => true | Some x, Some y => x =? y | _, _ => false end.
+Lemma optN_eqb_refl a : optN_eqb a a = true. Proof. destruct a; cbn; [apply N.eqb_refl|reflexivity]. Qed.
+Lemma optN_eqb_eq a b : optN_eqb a b = true -> a = b.
+Proof. destruct a, b; cbn; try discriminate; [intros H; apply N.eqb_eq in H; now subst|reflexivity]. Qed.
+Definition cdetb_eqb (a b : option (cdet * bool)) : bool :=
+  match a, b with
+  | None, None => true
+  | Some ((c, u, p), x), Some ((c', u', p'), x') => optN_eqb c c' && optN_eqb u u' && (p =? p') && eqb x x'
+  | _, _ => false
+  end.
+Lemma cdetb_eqb_refl a : cdetb_eqb a a = true.
+Proof. destruct a as [[[[c u] p] x]|]; cbn; [|reflexivity]. now rewrite !optN_eqb_refl, N.eqb_refl, eqb_reflx. Qed.
+Lemma cdetb_eqb_eq a b : cdetb_eqb a b = true -> a = b.
+Proof.
+  destruct a as [[[[c u] p] x]|], b as [[[[c' u'] p'] x']|]; cbn; try discriminate; [|reflexivity].
+  intros H. repeat (apply andb_true_iff in H as [H ?]).
+  apply optN_eqb_eq in H. apply optN_eqb_eq in H2. apply N.eqb_eq in H1. apply eqb_prop in H0. now subst.
+Qed.
 Definition entry_eqb (a b : acc_entry) : bool :=
   let '(r, g, p, d) := a in let '(r', g', p', d') := b in
   (r =? r') && (g =? g') &&
@@ -1214,12 +1237,12 @@ Definition entry_eqb (a b : acc_entry) : bool :=
                                   | FbSuccessSer, FbSuccessSer | FbErrorSer, FbErrorSer | FbExceeded, FbExceeded => true
                                   | _, _ => false end
    | _, _ => false end) &&
-  (match d, d' with None, None => true | Some (c, x), Some (c', x') => (c =? c') && eqb x x' | _, _ => false end).
+  cdetb_eqb d d'.
 Lemma entry_eqb_refl a : entry_eqb a a = true.
 Proof.
   destruct a as [[[r g] p] d]. cbn. rewrite !N.eqb_refl. cbn.
-  destruct p as [i u b| | | |k]; cbn; rewrite ?N.eqb_refl, ?eqb_reflx; cbn; try (destruct k); cbn;
-    destruct d as [[c x]|]; cbn; rewrite ?N.eqb_refl, ?eqb_reflx; reflexivity.
+  rewrite cdetb_eqb_refl.
+  destruct p as [i u b| | | |k]; cbn; rewrite ?N.eqb_refl, ?eqb_reflx; cbn; try (destruct k); reflexivity.
 Qed.
 Lemma entry_eqb_eq a b : entry_eqb a b = true -> a = b.
 Proof.
@@ -1230,16 +1253,14 @@ Proof.
   { destruct p as [i u b| | | |k], p' as [i' u' b'| | | |k']; try discriminate; try reflexivity.
     - repeat (apply andb_true_iff in H1 as [H1 ?]). apply N.eqb_eq in H1. apply eqb_prop in H. apply eqb_prop in H2. now subst.
     - destruct k, k'; try discriminate; reflexivity. }
-  assert (d = d').
-  { destruct d as [[c x]|], d' as [[c' x']|]; try discriminate; try reflexivity.
-    apply andb_true_iff in H0 as [A B]. apply N.eqb_eq in A. apply eqb_prop in B. now subst. }
+  assert (d = d') by now apply cdetb_eqb_eq.
   now subst.
 Qed.
 
 Fixpoint call_ok (tab : list (N * acc_entry)) (l : list out) : bool :=
   match l with
   | [] => true
-  | OAccepted k req reg args caller rp wants :: r => call_ok ((k, (req, reg, args, det_of caller rp wants)) :: tab) r
+  | OAccepted k req reg args caller rp wants :: r => call_ok ((k, (req, reg, args, det_of reg caller rp wants)) :: tab) r
   | OCalled k req reg args det :: r =>
       match alookup k tab with Some e => entry_eqb e (req, reg, args, det) | None => false end && call_ok tab r
   | _ :: r => call_ok tab r
@@ -1247,7 +1268,7 @@ Fixpoint call_ok (tab : list (N * acc_entry)) (l : list out) : bool :=
 Fixpoint tab_after (tab : list (N * acc_entry)) (l : list out) : list (N * acc_entry) :=
   match l with
   | [] => tab
-  | OAccepted k req reg args caller rp wants :: r => tab_after ((k, (req, reg, args, det_of caller rp wants)) :: tab) r
+  | OAccepted k req reg args caller rp wants :: r => tab_after ((k, (req, reg, args, det_of reg caller rp wants)) :: tab) r
   | _ :: r => tab_after tab r
   end.
 Lemma call_ok_app tab a b : call_ok tab (a ++ b) = call_ok tab a && call_ok (tab_after tab a) b.
@@ -1404,9 +1425,9 @@ Proof.
   - destruct (negb (joined s)); [intros [= <- <-]; apply Inert; [reflexivity|apply pres_refl]|].
     destruct (amem req (invs s)); [intros [= <- <-]; apply Inert; [reflexivity|apply pres_refl]|].
     destruct (alookup reg (regs s)) as [d|]; [|intros [= <- <-]; apply Inert; [reflexivity|apply pres_refl]].
-    set (k := nextk s). set (clos := r_details d && rp). set (det := if r_details d then Some (caller, clos) else None).
-    set (tab1 := (k, (req, reg, args, det_of caller rp (r_details d))) :: tab).
-    assert (Hd : det_of caller rp (r_details d) = det) by reflexivity.
+    set (k := nextk s). set (clos := r_details d && rp_on rp). set (det := if r_details d then Some (eff_details reg caller, clos) else None).
+    set (tab1 := (k, (req, reg, args, det_of reg caller rp (r_details d))) :: tab).
+    assert (Hd : det_of reg caller rp (r_details d) = det) by reflexivity.
     assert (Ht : alookup k tab1 = Some (req, reg, args, det)).
     { unfold tab1. cbn. rewrite N.eqb_refl, Hd. reflexivity. }
     assert (Ent : forall cs s1, s1 = {| regs := regs s; invs := aset req k (invs s);
@@ -1477,7 +1498,7 @@ End Fid.
 (* declarative reading *)
 Lemma tab_after_origin l : forall tab k e, alookup k (tab_after tab l) = Some e ->
   alookup k tab = Some e \/ exists req reg args caller rp wants,
-     In (OAccepted k req reg args caller rp wants) l /\ e = (req, reg, args, det_of caller rp wants).
+     In (OAccepted k req reg args caller rp wants) l /\ e = (req, reg, args, det_of reg caller rp wants).
 Proof.
   induction l as [|x l IH]; intros tab k e H; [now left|].
   destruct x as [k0 rq g ar c rp w| | | |]; cbn [tab_after] in H;
@@ -1499,7 +1520,7 @@ Theorem args_fidelity_global : forall classify ecls fl ops s outs,
   run classify ecls fl init ops = (s, outs) ->
   forall pre k req reg args det post, outs = pre ++ OCalled k req reg args det :: post ->
   exists caller rp wants, In (OAccepted k req reg args caller rp wants) pre
-                          /\ det = (if wants then Some (caller, wants && rp) else None).
+                          /\ det = (if wants then Some (eff_details reg caller, wants && rp_on rp) else None).
 Proof.
   intros classify ecls fl ops s outs R pre k req reg args det post E.
   assert (I0 : InvC init []) by (intros k0 c H; discriminate).
@@ -1549,6 +1570,13 @@ Definition h_check_types : list op :=
   [ORegister 100 {| r_details := true; r_coro := false; r_check := true; r_sig := SigOk |};
    ORegister 101 {| r_details := false; r_coro := false; r_check := true; r_sig := SigIllTyped |};
    ORegister 102 {| r_details := false; r_coro := false; r_check := false; r_sig := SigShort |};
-   OInvocation 1 100 (V 11) 7 false {| b_pre := []; b_fin := FReturn (RPlain (V 21)) |}; OTurn;
-   OInvocation 2 101 (V 12) 7 false {| b_pre := []; b_fin := FReturn (RPlain (V 22)) |}; OTurn;
-   OInvocation 3 102 (V 13) 7 false {| b_pre := []; b_fin := FReturn (RPlain (V 23)) |}; OTurn].
+   OInvocation 1 100 (V 11) C7 (None) {| b_pre := []; b_fin := FReturn (RPlain (V 21)) |}; OTurn;
+   OInvocation 2 101 (V 12) C7 (None) {| b_pre := []; b_fin := FReturn (RPlain (V 22)) |}; OTurn;
+   OInvocation 3 102 (V 13) C7 (None) {| b_pre := []; b_fin := FReturn (RPlain (V 23)) |}; OTurn].
+
+(* receive_progress absent / explicitly false / true; details with and without caller disclosure and procedure *)
+Definition h_tristate : list op :=
+  [ORegister 100 d_plain;
+   OInvocation 1 100 (V 11) (None, None, None) None {| b_pre := [V 1]; b_fin := FReturn (RPlain (V 21)) |}; OTurn;
+   OInvocation 2 100 (V 12) (Some 7, Some 0, None) (Some false) {| b_pre := [V 1]; b_fin := FReturn (RPlain (V 22)) |}; OTurn;
+   OInvocation 3 100 (V 13) (Some 7, Some 5, Some 900) (Some true) {| b_pre := [V 1]; b_fin := FReturn (RPlain (V 23)) |}; OTurn].
